@@ -312,6 +312,9 @@ func runCheck(args []string) int {
 		if fc.Kind != "func" {
 			assumptions = append(assumptions, fmt.Sprintf("%s contract of %s is assumed, not verified", fc.Kind, name))
 		}
+		for _, c := range fc.EnsAssumed {
+			assumptions = append(assumptions, fmt.Sprintf("assumed clause of %s: %s", name, c.Text))
+		}
 	}
 	assumptions = append(assumptions,
 		"integers: Go machine arithmetic modelled exactly for + - (wrap-around), conversions, div/mod; non-constant products are an uninterpreted mulI with sound bounds (m <= 2^32 is a stated precondition of the functional claims)",
